@@ -65,11 +65,15 @@ class FakeLoader:
         return self.epl.get_entry_points()
 
 
+_EMPTY = None
+
+
 def mk_gen(rules):
-    g = EntryPointGenerator.__new__(EntryPointGenerator)
-    g.options = None
-    g.event_manager = None
-    g.loader = FakeLoader()
+    """a generator built by the real constructor over an empty settings directory, then given the rules under test"""
+    global _EMPTY
+    if _EMPTY is None:
+        _EMPTY = tempfile.mkdtemp(prefix='c20empty')
+    g = EntryPointGenerator(types.SimpleNamespace(default_settings=_EMPTY), None, FakeLoader())
     g.entry_point_rules = list(rules)
     g.entry_point_results = set()
     return g
@@ -81,7 +85,8 @@ RULES = [
     dict(method_id=12), dict(method_id=12, lang='java'), dict(method_list=['%unit_init']), dict(unit_name='zzz', method_list=['main']),
 ]
 UNITS = [types.SimpleNamespace(lang='python', module_id=7, unit_path='src/app/main.py'),
-         types.SimpleNamespace(lang='java', module_id=3, unit_path='lib/Util.java')]
+         types.SimpleNamespace(lang='java', module_id=3, unit_path='lib/Util.java'),
+         types.SimpleNamespace(lang='python', module_id=8, unit_path='other/main.py')]
 SCOPES = [dict(name='main', attrs='public static', stmt_id=12), dict(name='run', attrs='', stmt_id=13), dict(name='%unit_init', attrs=None, stmt_id=14),
           dict(name=None, attrs='public', stmt_id=15)]
 
@@ -117,6 +122,27 @@ def search_selection():
                                     observed=dict(results=sorted(got), saved=sorted(saved)), expected=sorted(want),
                                     clauses=['no-unselected-method-is-a-start', 'every-selected-method-is-a-start', 'only-selected-added-so-far',
                                              'all-selected-so-far-added', 'saved-to-the-loader-iff-some-rule-matches-the-unit']))
+                if len(wit) >= 4:
+                    return wit, n
+            # one generator over the whole project (what basic analysis does): per unit, the candidates and the additions must be that unit's
+            for order in (UNITS, UNITS[::-1]):
+                n += 1
+                g = mk_gen(rules)
+                want = set()
+                for u in order:
+                    cands = g.filter_rule_by_unit_info(u)
+                    want_c = [r for r in rules if unit_match(r, u)]
+                    bad = [id(x) for x in cands] != [id(x) for x in want_c]
+                    g.collect_entry_points_from_unit_scope(u, dm)
+                    want |= {s['stmt_id'] for s in SCOPES if any(unit_match(r, u) and method_match(r, s) for r in rules)}
+                    if bad or set(g.loader.get_entry_points()) != want and want_c:
+                        wit.append(dict(function='EntryPointGenerator.filter_rule_by_unit_info',
+                                        input=dict(rules=[RULES[i] for i in combo], units_in_order=[vars(x) for x in order], failing_unit=vars(u)),
+                                        observed=dict(candidates=[RULES[rules.index(x)] for x in cands], saved=sorted(g.loader.get_entry_points())),
+                                        expected=dict(candidates=[RULES[rules.index(x)] for x in want_c], saved=sorted(want)),
+                                        clauses=['only-matching-rules', 'all-matching-rules', 'candidates-are-matching-rules',
+                                                 'every-matching-rule-so-far-is-a-candidate', 'nonempty-iff-some-rule-matched-so-far']))
+                        break
                 if len(wit) >= 4:
                     return wit, n
     # EntryPointsLoader: union semantics
@@ -155,6 +181,11 @@ def search_load_settings():
     finally:
         shutil.rmtree(d, ignore_errors=True)
     return wit, 1
+
+
+def cleanup():
+    if _EMPTY:
+        shutil.rmtree(_EMPTY, ignore_errors=True)
 
 
 def search_p3():
@@ -199,6 +230,7 @@ def search(target, models):
             w, c = [dict(function=fn.__name__, input='small-scope driver', observed=repr(e), clauses=['safety'])], 1
         wit += w
         cases += c
+    cleanup()
     t = target.split('.')[-1]
     mine = [w for w in wit if w['function'].split('.')[-1] == t]
     return dict(witnesses=(mine or wit)[:5], searched=f'{cases} cases: rule pairs x 2 units x 4 method scopes, file-name table, settings tree, 3 entry sets',
